@@ -88,9 +88,22 @@ def run(ck):
                     prop = ReducedDensityMatrixPropagator(ta, ham, RTensor=LF)
             # a propagator is reused: first an unrelated call with another refinement, then the call under test
             calls = rng.choice([1, 1, 2, 3])
-            for c in range(calls - 1):
+            if kind == "lind-deph" and h % 2 == 1:
+                # the propagator was used with a Gaussian dephasing object before it got the Lorentzian one
+                prop.PDeph = PureDephasing(drates=gam.copy(), dtype="Gaussian")
                 prop.propagate(ReducedDensityMatrix(data=rho0.copy()), method=methods[L], Nref=nref)
-            rhot = prop.propagate(ReducedDensityMatrix(data=rho0.copy()), method=methods[L], Nref=nref)
+                prop.PDeph = pd
+                inp["history"] = "propagate with a Gaussian pure-dephasing object; PDeph replaced by the Lorentzian one; propagate"
+            # ONE state object for all calls (a state is an input: it can be used again)
+            rin = ReducedDensityMatrix(data=numpy.array(rho0, dtype=complex).copy())
+            if h % 3 == 0:
+                calls = max(calls, 2)
+            for c in range(calls - 1):
+                prop.propagate(rin, method=methods[L], Nref=nref)
+            rhot = prop.propagate(rin, method=methods[L], Nref=nref)
+            if not numpy.array_equal(numpy.asarray(rin._data), numpy.array(rho0, dtype=complex)):
+                ck.fail("initial-state-changed:%s" % kind, "propagate() changed the state it was given (the same object propagated again starts somewhere else)",
+                        dict(inp, calls=calls), float(numpy.abs(numpy.asarray(rin._data) - rho0).max()), 0)
         except Exception as e:
             ck.fail("raises:propagate:%s" % kind, "propagate raised %r" % (e,), inp)
             continue
